@@ -104,7 +104,7 @@ Done == st # "run" /\ UNCHANGED tvars
 TInit == /\ t \in 1..Len(Traces) /\ l = 1 /\ st = "run"
          /\ srcv = ToFs(Tr.src) /\ rulesv = Tr.rules /\ opts = Tr.opts
          /\ fs0 = ToFs(Tr.dst) /\ fs = fs0
-         /\ list = SenderList(srcv, opts, rulesv) /\ ioerr = 0 /\ prot = Protected(rulesv)
+         /\ list = SenderList(srcv, opts, rulesv) /\ ioerr = Tr.ioerr /\ prot = Protected(rulesv)     \* ioerr: the sender could not read a source argument
          /\ gi = 0 /\ pend = <<>> /\ reqs = <<>> /\ pc = "delete"
          /\ dirv = Tr.dir /\ modev = Tr.mode /\ ordv = "any"
          /\ up = <<>> /\ down = <<>> /\ sent = {}
